@@ -241,4 +241,4 @@ def _premises(cx):
             'evaluates-the-built-product-list', 'pool-arm-is-an-ordered-map')
     include_premises(cx, ['C15', 'C16'], 'a run is reproducible from its seed, in whatever process it is executed, only if every run and '
                      'repetition builds its own model and the results of a sweep are attributed to their runs independently of worker timing',
-                     only=lambda o: any(k in o.key for k in keep))
+                     only=lambda o: any(k in o.key for k in keep) or 'not a Pool created in this call' in o.message)
